@@ -2,7 +2,13 @@
 
 Every node is  recorder(Client) -> B/IP layer -> AnnexJCodec -> faux multiplexer -> vlan.IPNode  on a controlled
 IP network (`CtlIPNetwork`: datagrams are parked on one shared `Wire`, the driver decides what is delivered next);
-the subnets are joined by one `vlan.IPRouter`.  A BVLL service element is bound to the B/IP layer's SAP (it sends
+the subnets are joined by one `vlan.IPRouter`.  The recorder behaves like the decoder that stands there in a real
+device: once it has written down the octets it was handed it consumes the buffer in place (`PDUData.get_data`, what
+`NPDU.decode` does), so a B/IP layer that goes on using a PDU after handing it up is seen to do so.  With
+`"upper": "nsap"` a node carries the library's real network layer instead:  application recorder(Client) ->
+NetworkServiceAccessPoint (+ NetworkServiceElement) -> NetworkAdapter -> tap -> B/IP layer; the tap writes down the
+octets that pass and hands the *same* PDU object on, the application recorder logs the APDUs the network layer
+delivers, and broadcasts are originated as real APDUs through `NetworkServiceAccessPoint.indication`.  A BVLL service element is bound to the B/IP layer's SAP (it sends
 Read-FDT / Delete-FDT-Entry and records what comes back).  A passive monitor parses every datagram with the
 reference's own Annex J parser and feeds the lifetime reference with *observed* facts.
 
@@ -15,6 +21,7 @@ Layout (plain JSON-able dict):
                                                     ordinary nodes while it is registered with the BBMD of subnet fds[k]
      "bdt":     "full" | {"<i>": [j, ...]},         peers listed by the BBMD of subnet i (it always lists itself)
      "mask":    "host" | "subnet" | {"<j>": ...},   how BBMD j is entered in every table: /32 (two-hop) or /24 (one-hop)
+     "upper":   "rec" | "nsap" | {"bbmd"|"ord"|"fd": ...},  what sits above the B/IP layers (per kind of node; default "rec")
      "phase":   0.25}                               virtual start time
 Node ids: b<i> BBMD of subnet i, o<i>a / o<i>b ordinary nodes, f<k> foreign devices.
 """
@@ -23,7 +30,9 @@ import struct
 
 import bv  # noqa: F401
 from bacpypes.comm import Client, Server, ApplicationServiceElement, bind
-from bacpypes.pdu import Address, LocalBroadcast, PDU, unpack_ip_addr
+from bacpypes.pdu import Address, LocalBroadcast, GlobalBroadcast, PDU, unpack_ip_addr
+from bacpypes.apdu import UnconfirmedRequestPDU
+from bacpypes.netservice import NetworkServiceAccessPoint, NetworkServiceElement
 from bacpypes.vlan import IPNode, IPRouter
 from bacpypes.bvllservice import BIPSimple, BIPForeign, BIPBBMD, AnnexJCodec
 from bacpypes.bvll import ReadForeignDeviceTable, DeleteForeignDeviceTableEntry
@@ -70,19 +79,57 @@ class FauxMux(Client, Server):
         self.response(PDU(pdu, source=src, destination=dest))
 
 
+def _addr_key(a):
+    return (getattr(a, "addrType", None), bytes(getattr(a, "addrAddr", None) or b""))
+
+
 class Recorder(Client):
-    """Sits where the network layer would: logs every PDU the B/IP layer hands up."""
+    """Sits where the network layer would: logs every PDU the B/IP layer hands up, then consumes it in place the way
+    the network layer's decoder does (the octets are taken out of the buffer that was handed up)."""
 
     def __init__(self, log):
         Client.__init__(self)
         self.log = log
 
     def confirmation(self, pdu):
-        s, d = pdu.pduSource, pdu.pduDestination
-        self.log.append((vclock.clock.now,
-                         (getattr(s, "addrType", None), bytes(getattr(s, "addrAddr", None) or b"")),
-                         (getattr(d, "addrType", None), bytes(getattr(d, "addrAddr", None) or b"")),
-                         bytes(pdu.pduData)))
+        self.log.append((vclock.clock.now, _addr_key(pdu.pduSource), _addr_key(pdu.pduDestination), bytes(pdu.pduData)))
+        pdu.get_data(len(pdu.pduData))
+
+
+class Tap(Client, Server):
+    """Between the real NetworkAdapter and the B/IP layer: writes down the octets that pass (same record as Recorder for
+    what goes up) and hands the very same PDU object on, so the network layer above consumes what the B/IP layer built."""
+
+    def __init__(self, log, down):
+        Client.__init__(self)
+        Server.__init__(self)
+        self.log = log
+        self.down = down
+
+    def indication(self, pdu):
+        self.down.append((vclock.clock.now, _addr_key(pdu.pduDestination), bytes(pdu.pduData)))
+        self.request(pdu)
+
+    def confirmation(self, pdu):
+        self.log.append((vclock.clock.now, _addr_key(pdu.pduSource), _addr_key(pdu.pduDestination), bytes(pdu.pduData)))
+        self.response(pdu)
+
+
+class AppRecorder(Client):
+    """Sits where the application layer would, above the real network layer: logs every APDU it delivers."""
+
+    def __init__(self, log):
+        Client.__init__(self)
+        self.log = log
+
+    def confirmation(self, apdu):
+        # the network layer hands over a generic APDU: PDU type and service choice decoded, the rest as octets
+        self.log.append((vclock.clock.now, _addr_key(apdu.pduSource), _addr_key(apdu.pduDestination), bytes(apdu.pduData),
+                         (getattr(apdu, "apduType", None), getattr(apdu, "apduService", None))))
+
+
+class QuietNSE(NetworkServiceElement):
+    _startup_disabled = True
 
 
 class BvllASE(ApplicationServiceElement):
@@ -102,8 +149,9 @@ def ip6(ip, port=PORT):
 
 
 class BipNode(object):
-    def __init__(self, nid, kind, ip, net, subnet_key):
+    def __init__(self, nid, kind, ip, net, subnet_key, upper="rec"):
         self.id = nid
+        self.upper = upper                  # rec: consuming recorder | nsap: the library's network layer
         self.kind = kind                    # bbmd | ord | fd
         self.ip = ip
         self.tuple = (ip, PORT)
@@ -112,7 +160,9 @@ class BipNode(object):
         self.subnet = subnet_key
         self.net = net
         self.address = Address("%s/24:%d" % (ip, PORT))
-        self.up = []                        # what the recorder saw
+        self.up = []                        # what the recorder / tap saw handed up by the B/IP layer
+        self.app = []                       # nsap: what the network layer delivered to the application recorder
+        self.down = []                      # nsap: what the network layer handed down to the B/IP layer
         self.sap = []                       # what the BVLL service element saw
         if kind == "bbmd":
             self.bip = BIPBBMD(self.address)
@@ -122,9 +172,21 @@ class BipNode(object):
             self.bip = BIPSimple()
         self.annexj = AnnexJCodec()
         self.mux = FauxMux(self.address, net)
-        self.rec = Recorder(self.up)
         self.ase = BvllASE(self.sap)
-        bind(self.rec, self.bip, self.annexj, self.mux)
+        if upper == "nsap":
+            self.rec = AppRecorder(self.app)
+            self.nsap = NetworkServiceAccessPoint()
+            self.nse = QuietNSE()
+            bind(self.nse, self.nsap)
+            bind(self.rec, self.nsap)
+            self.tap = Tap(self.up, self.down)
+            bind(self.tap, self.bip, self.annexj, self.mux)
+            self.nsap.bind(self.tap)
+        elif upper == "rec":
+            self.rec = Recorder(self.up)
+            bind(self.rec, self.bip, self.annexj, self.mux)
+        else:
+            raise ValueError("bipsys: upper layer %r" % (upper,))
         bind(self.ase, self.bip)
 
 
@@ -135,7 +197,13 @@ def norm_layout(layout):
     lay.setdefault("bdt", "full")
     lay.setdefault("mask", "host")
     lay.setdefault("phase", 0.25)
+    lay.setdefault("upper", "rec")
     return lay
+
+
+def upper_of(lay, kind):
+    u = lay.get("upper", "rec")
+    return u.get(kind, "rec") if isinstance(u, dict) else u
 
 
 def npdu_payload(n):
@@ -198,6 +266,7 @@ class BipSystem(object):
         self.results = []               # (t, from, to, code) of every Result delivered
         self.lost = 0
         self.storm = False
+        self.mark = {}                  # node id -> (len(up), len(app)) at the latest originate()
 
         subnets, bbmd_of = {}, {}
         for i, (has_bbmd, n_ord) in enumerate(lay["subnets"]):
@@ -260,7 +329,7 @@ class BipSystem(object):
         return net
 
     def _add(self, nid, kind, ip, net, key):
-        self.nodes[nid] = BipNode(nid, kind, ip, net, key)
+        self.nodes[nid] = BipNode(nid, kind, ip, net, key, upper_of(self.layout, kind))
         self.order.append(nid)
 
     def mask_of(self, b):
@@ -361,12 +430,30 @@ class BipSystem(object):
         return npdu_payload(self.serial)
 
     def originate(self, nid, payload=None):
-        """Hand a broadcast NPDU down to the B/IP layer of node nid (no delivery yet)."""
+        """Hand a broadcast NPDU down to the B/IP layer of node nid (no delivery yet).  A node with the real network layer
+        is given the Who-Is as an APDU for the global broadcast address; what its network layer then hands to the B/IP
+        layer (seen by the tap) is the payload of this broadcast.  Returns the payload octets."""
         if payload is None:
             payload = self.next_payload()
         node = self.nodes[nid]
+        self.mark = {n: (len(self.nodes[n].up), len(self.nodes[n].app)) for n in self.order}
         try:
-            node.rec.request(PDU(payload, destination=LocalBroadcast()))
+            if node.upper == "nsap":
+                apdu_octets = bbmdref.split_npdu(payload)["apdu"]
+                if apdu_octets is None or len(apdu_octets) < 2 or apdu_octets[0] != 0x10:
+                    raise RuntimeError("bipsys: payload is not an unconfirmed request")
+                apdu = UnconfirmedRequestPDU(apdu_octets[1])
+                apdu.put_data(apdu_octets[2:])
+                apdu.pduDestination = GlobalBroadcast()
+                n0 = len(node.down)
+                node.rec.request(apdu)
+                sent = [d for d in node.down[n0:]]
+                if len(sent) == 1 and sent[0][1][0] == Address.localBroadcastAddr:
+                    payload = sent[0][2]
+                else:
+                    self.errors.append("originate(%s): the network layer handed down %r" % (nid, [(d[1][0], d[2].hex()) for d in sent]))
+            else:
+                node.rec.request(PDU(payload, destination=LocalBroadcast()))
         except Exception as err:
             self.errors.append("originate(%s): %s: %s" % (nid, type(err).__name__, str(err)[:120]))
         vclock.settle()
@@ -413,6 +500,14 @@ class BipSystem(object):
             got = [(src, dst) for (t, src, dst, data) in self.nodes[nid].up if data == payload and t >= since]
             out[nid] = got
         return out
+
+    def handed_up(self, nid):
+        """everything the B/IP layer of nid handed up since the latest originate(): [(t, source, destination, octets)]"""
+        return self.nodes[nid].up[self.mark.get(nid, (0, 0))[0]:]
+
+    def app_delivered(self, nid):
+        """nsap nodes: everything the network layer delivered to the application recorder since the latest originate()"""
+        return self.nodes[nid].app[self.mark.get(nid, (0, 0))[1]:]
 
     def fdt_served(self, t=None, cls="must"):
         """{bbmd: set(fd)} of the foreign devices the lifetime reference puts in class `cls` right now"""
